@@ -44,7 +44,7 @@ fn run() {
     for line in stdin.lock().lines() {
         let line = line.unwrap();
         let toks: Vec<&str> = line.split_ascii_whitespace().collect();
-        let ans = if toks.len() == 2 && (toks[0] == "loadjson" || toks[0] == "loadjsonx") {
+        let ans = if (toks.len() == 2 && (toks[0] == "loadjson" || toks[0] == "loadjsonx")) || (toks.len() == 3 && toks[0] == "loadtyped") {
             worker.ask(&line)
         } else {
             step(&mut st, &toks)
